@@ -178,6 +178,33 @@ def own_sample_case(name, mk, info, n, grid=False, after_other=False):
                 max_paths=48)
 
 
+def own_sample_rows_case(name, mk, info, n=2, k=2):
+    """parameter-dependent shapes: the boundary accepts what its own sampler returns for k parameter rows, every point
+    asked with the parameter row it was drawn for"""
+    cname = "own_boundary_sample/%s/random/n%d/k%d" % (name, n, k)
+
+    def body(env):
+        sh = mk(env)
+        L = env.L
+        P, rows = SH.params(env, sh.pvars, k)
+        for prm in rows:
+            env.assume(sh.oset.positive(prm, L))
+        SH.bound_all_inputs(env, 16, rows)
+        bd = sh.dom.boundary
+        pts = bd.sample_random_uniform(n=n, params=P)
+        Prep = Points(P.as_tensor.repeat_interleave(n, dim=0), P.space)
+        res = bd._contains(pts, Prep)
+        return dict(res=res, n=len(pts))
+
+    def goals(o, L, env):
+        flat = [r[0] if isinstance(r, list) else r for r in o["res"]]
+        yield "one_truth_value_per_row", len(flat) == o["n"] == n * k
+        for i, got in enumerate(flat):
+            yield "own_sample_accepted[row%d]" % i, got
+
+    return Case(cname, body, goals, family="own_boundary_sample/" + name, params=dict(shape=name, n=n, k=k, **info), max_paths=64)
+
+
 def abstract_bool_case(op, boundary, n=2):
     """the composition layer on ARBITRARY operands: result == set-theoretic rule of the operands' answers"""
     cname = "abstract/%s/%s" % (op, "boundary" if boundary else "interior")
@@ -413,6 +440,9 @@ def cases(tier):
             cs.append(own_sample_case(name, mk, info, 3, grid=True))
             if "kind" in info and info["kind"] in SH.PRIMS:
                 cs.append(own_sample_case(name, mk, info, 2, grid=True, after_other=True))
+    for name, mk, info in cat:
+        if info.get("dep") and info.get("fam") == "bool" and "Interval" in name and (tier == "thorough" or info.get("kind") == "-"):
+            cs.append(own_sample_rows_case(name, mk, info))
     cs.append(point_case(0))
     cs.append(point_case(2))
     cs.append(named_axes_case(0))
